@@ -66,6 +66,10 @@ def main(argv):
     repo = setup_repo_path()
     modules = prop.get("modules", [])
     opts = {"replay": True, "recheck_cvc5": tier == "thorough" and prop.get("recheck_cvc5", True)}
+    _bp = os.path.join(HERE, "baseline", pid + ".json")
+    if os.path.exists(_bp):
+        # solver-strategy hints only (which pass discharged the obligation last time); never a verdict
+        opts["hints"] = {k.split("|", 1)[1]: v["hint"] for k, v in json.load(open(_bp)).get("obligations", {}).items() if v.get("hint")}
     results = []
     reg = None
     wall_v = 0.0
@@ -270,7 +274,8 @@ def main(argv):
 
     if update_baseline and not violations and not checker_failure and not open_unknown and not undecided and not errors:
         os.makedirs(os.path.join(HERE, "baseline"), exist_ok=True)
-        base = {"obligations": {k + "|" + n: {"discharged": True} for (k, n), g in byname.items()},
+        base = {"obligations": {k + "|" + n: ({"discharged": True, "hint": "mbqi"} if any(b.startswith("z3-mbqi") or b.startswith("cvc5") for b in g["backends"]) else {"discharged": True})
+                                for (k, n), g in byname.items()},
                 "hashes": {f["function"]: f["src_sha256_16"] for f in funcs}}
         json.dump(base, open(base_path, "w"), indent=0, sort_keys=True)
         print("baseline updated: %d obligations" % len(base["obligations"]))
